@@ -45,6 +45,10 @@ let rdx code rest =
 let mkh o t c l r = { h_owner = labels_of_wire (b o); h_rtype = nn t; h_class = nn c; h_ttl = nn l; h_rdlen = nn r }
 let handle = function
   | "rdx" :: code :: rest -> rdx code rest
+  | ["psuf"; m; p; k; y] ->
+      (match c04_parsed_suffix (b m) (nn p) (nat_of_int (int_of_string k)) (b y) with
+       | Ok ((((e, c), cc), lc), h) -> "Ok " ^ sb e ^ " " ^ str_cmp c ^ " " ^ str_cmp cc ^ " " ^ str_cmp lc ^ " " ^ hex_of_bytes h
+       | _ -> "Panic")
   | ["hdr"; o1; t1; c1; l1; r1; o2; t2; c2; l2; r2] ->
       let (x, y) = (mkh o1 t1 c1 l1 r1, mkh o2 t2 c2 l2 r2) in
       sb (c04_header_eq x y) ^ " " ^ str_cmp (c04_header_cmp x y)
